@@ -39,6 +39,69 @@ func runC20(c *Ctx) {
 	c20R6(c)
 	c20R7(c)
 	c20R8(c)
+	c20R9(c)
+}
+
+// c20R9: the constructors never lose what they were given.
+func c20R9(c *Ctx) {
+	r := c.R.Rule("R9", "K6/K2 nothing is dropped: conduiterr.Wrap and WithCode return a fresh *ConduitError whose wrapped error is their whole argument (never an inner node of it), and cerrors.Join is errors.Join itself (every joined error stays reachable by Is/As)", 3)
+	errF := c.Field(r, pConduiterr, "ConduitError", "err")
+	for _, name := range []string{"WithCode", "Wrap"} {
+		fn := c.SSA(r, pConduiterr, name)
+		if fn == nil || errF == nil {
+			continue
+		}
+		var errP ssa.Value
+		for _, p := range fn.Params {
+			if isErrorType(p.Type()) {
+				errP = p
+			}
+		}
+		for _, ret := range kit.Returns(fn) {
+			v := kit.RetVal(ret, 0)
+			if kit.IsNilConst(v) {
+				continue
+			}
+			a, isAlloc := kit.Unwrap(v).(*ssa.Alloc)
+			ok := false
+			if isAlloc && errP != nil {
+				for _, b := range fn.Blocks {
+					for _, in := range b.Instrs {
+						if st, isSt := in.(*ssa.Store); isSt {
+							if fa, isFA := st.Addr.(*ssa.FieldAddr); isFA && fa.X == ssa.Value(a) && kit.SameField(kit.FieldOf(fa), errF) && (st.Val == errP || kit.IsVar(st.Val, errP)) {
+								ok = true
+							}
+						}
+					}
+				}
+			}
+			c.R.Check(ok, r, "conduiterr."+name+": returns a fresh ConduitError wrapping the whole argument", c.Pos(posOf(ret)), "ok", "conduiterr."+name+" can return something other than a new ConduitError whose wrapped error is its argument (e.g. an inner node found by As): every layer between that node and the argument — a fatal marker, Join siblings, sentinels — is dropped", true)
+		}
+	}
+	// cerrors.Join = errors.Join
+	if p := c.W.Pkg(pCerrors); p != nil {
+		okJoin := false
+		for _, f := range p.Syntax {
+			ast.Inspect(f, func(n ast.Node) bool {
+				vs, ok := n.(*ast.ValueSpec)
+				if !ok {
+					return true
+				}
+				for i, nm := range vs.Names {
+					if nm.Name != "Join" || i >= len(vs.Values) {
+						continue
+					}
+					if se, ok := vs.Values[i].(*ast.SelectorExpr); ok {
+						if obj, ok := p.TypesInfo.Uses[se.Sel].(*types.Func); ok && obj.Pkg() != nil && obj.Pkg().Path() == "errors" && obj.Name() == "Join" {
+							okJoin = true
+						}
+					}
+				}
+				return true
+			})
+		}
+		c.R.Check(okJoin, r, "cerrors.Join is errors.Join", "", "alias of errors.Join", "cerrors.Join is no longer errors.Join itself: a re-implementation that drops, truncates or flattens operands makes IsFatalError / conduiterr.Get / Is depend on the width and order of the join", false)
+	}
 }
 
 // c20R8: which inner code survives, and how un-coded sentinels are found, does not depend on the
